@@ -33,6 +33,7 @@ type backend interface {
 	unsubscribeAll(ctx context.Context, client string) error
 	publish(p *pubRec) // may block
 	stop()
+	numClientSubs(client string) int
 }
 
 type plainBackend struct{ srv *pubsub.Server }
@@ -60,7 +61,8 @@ func (b plainBackend) unsubscribeAll(ctx context.Context, client string) error {
 func (b plainBackend) publish(p *pubRec) {
 	_ = b.srv.PublishWithEvents(context.Background(), p.id, p.raw)
 }
-func (b plainBackend) stop() { _ = b.srv.Stop() }
+func (b plainBackend) stop()                           { _ = b.srv.Stop() }
+func (b plainBackend) numClientSubs(client string) int { return b.srv.NumClientSubscriptions(client) }
 
 type busBackend struct{ bus *types.EventBus }
 
@@ -100,9 +102,12 @@ func (b busBackend) publish(p *pubRec) {
 		_ = b.bus.PublishEventVote(types.EventDataVote{Vote: &types.Vote{Height: id}})
 	case "barrier":
 		_ = b.bus.Publish("SimBarrier", types.EventDataString(strconv.Itoa(p.id)))
+	case "block":
+		_ = b.bus.Publish("SimBlock", types.EventDataString(strconv.Itoa(p.id)))
 	}
 }
-func (b busBackend) stop() { _ = b.bus.Stop() }
+func (b busBackend) stop()                           { _ = b.bus.Stop() }
+func (b busBackend) numClientSubs(client string) int { return b.bus.NumClientSubscriptions(client) }
 
 func txBytes(id int) []byte { return []byte(fmt.Sprintf("tx-%d", id)) }
 
@@ -183,6 +188,7 @@ type subRec struct {
 	pump     bool
 	canary   bool
 	sentinel bool
+	blocker  bool // unbuffered, read only when the simulator drains: lets an action hold the server loop blocked
 	poison   bool
 	sub      subscription
 	born     int // id of the last publication before the subscription
@@ -215,6 +221,7 @@ type psim struct {
 	pubs     map[int]*pubRec
 	nextID   int
 	sentinel *subRec
+	blocker  *subRec
 	opsLeft  int
 	stopped  bool
 	wedged   bool
@@ -255,6 +262,12 @@ func newPubsubSim(env *simcore.Env, cfg simcore.Op) simcore.Sim {
 		s.sentinel = s.addSub("sim-sentinel", "sim.barrier EXISTS", []cond{{Key: "sim.barrier", Op: "EXISTS"}}, 0)
 	}
 	s.sentinel.sentinel = true
+	if s.bus {
+		s.blocker = s.addSub("sim-blocker", "tm.event = 'SimBlock'", []cond{{"tm.event", "=", "s", "SimBlock"}}, 0)
+	} else {
+		s.blocker = s.addSub("sim-blocker", "sim.block EXISTS", []cond{{Key: "sim.block", Op: "EXISTS"}}, 0)
+	}
+	s.blocker.blocker = true
 	// canaries: distinct query strings that match every publication
 	for j := 0; j < cfg.Int("canaries"); j++ {
 		pad := strings.Repeat(" ", 1+j/2)
@@ -278,18 +291,15 @@ func (s *psim) ctx() (context.Context, context.CancelFunc) {
 	return context.WithTimeout(context.Background(), time.Second)
 }
 
-// addSub subscribes (the pair must be new) and settles.
-func (s *psim) addSub(client, qstr string, conds []cond, capacity int) *subRec {
+// trySub calls Subscribe with the given context; on success it settles and records the subscription.
+func (s *psim) trySub(ctx context.Context, client, qstr string, conds []cond, capacity int) (*subRec, error) {
 	q, err := query.New(qstr)
 	if err != nil {
 		panic(fmt.Sprintf("generator produced an unparsable query %q: %v", qstr, err))
 	}
-	ctx, cancel := s.ctx()
 	sub, err := s.be.subscribe(ctx, client, q, capacity)
-	cancel()
 	if err != nil {
-		s.env.Fail("C19", "subscribe-failed", "Subscribe(%s, %q) of a new (client, query) pair failed: %v", client, qstr, err)
-		return nil
+		return nil, err
 	}
 	s.env.Settle()
 	sr := &subRec{idx: len(s.subs), client: client, qstr: qstr, q: q, conds: conds, capacity: capacity, sub: sub, born: s.nextID, died: -1}
@@ -298,6 +308,18 @@ func (s *psim) addSub(client, qstr string, conds []cond, capacity int) *subRec {
 		s.reg[client] = map[string]bool{}
 	}
 	s.reg[client][qstr] = true
+	return sr, nil
+}
+
+// addSub subscribes (the pair must be new) and settles.
+func (s *psim) addSub(client, qstr string, conds []cond, capacity int) *subRec {
+	ctx, cancel := s.ctx()
+	sr, err := s.trySub(ctx, client, qstr, conds, capacity)
+	cancel()
+	if err != nil {
+		s.env.Fail("C19", "subscribe-failed", "Subscribe(%s, %q) of a new (client, query) pair failed: %v", client, qstr, err)
+		return nil
+	}
 	return sr
 }
 
@@ -327,7 +349,7 @@ func (s *psim) Next(rng *simcore.RNG) simcore.Op {
 	nUser := 0
 	var readable, users []int
 	for _, sr := range s.subs {
-		if sr.canary || sr.sentinel {
+		if sr.canary || sr.sentinel || sr.blocker {
 			continue
 		}
 		nUser++
@@ -340,7 +362,7 @@ func (s *psim) Next(rng *simcore.RNG) simcore.Op {
 			}
 		}
 	}
-	w := []int{18, 0, 5, 2, 40, 0, 0}
+	w := []int{18, 0, 5, 2, 40, 0, 0, 5}
 	if nUser < 3 {
 		w[0] = 60
 	}
@@ -411,6 +433,19 @@ func (s *psim) Next(rng *simcore.RNG) simcore.Op {
 		return simcore.Op{"a": "pub", "l": list}
 	case 5:
 		return simcore.Op{"a": "read", "s": readable[rng.Intn(len(readable))], "n": []int{1, 1, 2, 3, 99}[rng.Intn(5)]}
+	case 7:
+		// Subscribe with a context that expires / is cancelled while the server loop is blocked on an
+		// unread unbuffered subscription, then (mostly) a retry by the same client with the same query
+		var cs []cond
+		if len(s.qpool) > 0 && rng.Bool(0.3) {
+			cs = s.qpool[rng.Intn(len(s.qpool))]
+		} else {
+			cs = genGoodQuery(rng, mix, dotless)
+			s.qpool = append(s.qpool, cs)
+		}
+		return simcore.Op{"a": "subto", "c": rng.Intn(nClients), "q": condsToOps(cs), "tight": rng.Bool(0.3),
+			"cap": []int{0, 1, 2, 5, 50}[rng.Intn(5)], "speed": []int{0, 1, 3}[rng.Intn(3)], "pump": rng.Bool(0.4),
+			"ms": []int{1, 5000, 10000}[rng.Intn(3)], "cancel": rng.Bool(0.3), "retry": rng.Bool(0.8)}
 	default:
 		return simcore.Op{"a": "stop"}
 	}
@@ -463,6 +498,74 @@ func (s *psim) Apply(op simcore.Op) bool {
 		if capacity == 0 {
 			e.Count("op.sub_unbuffered")
 		}
+	case "subto":
+		cs := condsFromOps(op.Subs("q"))
+		client := s.clientName(op.Int("c"))
+		capacity := op.Int("cap")
+		if len(cs) == 0 || capacity < 0 || op.Int("ms") <= 0 {
+			return false
+		}
+		qstr := renderQuery(cs, op.Bool("tight"))
+		if s.reg[client][qstr] {
+			return false
+		}
+		before := s.be.numClientSubs(client)
+		var sr *subRec
+		var err error
+		how := fmt.Sprintf("a context that expires after %d ms", op.Int("ms"))
+		// one publication that only the blocker matches: the loop blocks sending it until the drain
+		s.publishBurst([]*pubRec{s.mkBlock()}, func() {
+			var ctx context.Context
+			var cancel context.CancelFunc
+			if op.Bool("cancel") && s.cfg.Int("cmdcap") == 0 {
+				// (with a buffered command queue the outcome of an already cancelled context is a coin flip of select)
+				ctx, cancel = context.WithCancel(context.Background())
+				cancel()
+				how = "an already cancelled context"
+			} else {
+				ctx, cancel = context.WithTimeout(context.Background(), time.Duration(op.Int("ms"))*time.Millisecond)
+			}
+			sr, err = s.trySub(ctx, client, qstr, cs, capacity)
+			cancel()
+		})
+		if s.wedged {
+			break
+		}
+		after := s.be.numClientSubs(client)
+		if err != nil {
+			e.Count("fault.subscribe_ctx_expired")
+			if err != context.DeadlineExceeded && err != context.Canceled {
+				e.Fail("C19", "subscribe-failed", "Subscribe(%s, %q) with %s while the server was busy failed with %v", client, qstr, how, err)
+			}
+			// a failed Subscribe leaves the client NOT subscribed
+			if after != before {
+				e.Fail("C19", "phantom-registration", "Subscribe(%s, %q) with %s failed (%v) while the server loop was blocked on an unread unbuffered subscriber, yet NumClientSubscriptions(%s) went from %d to %d", client, qstr, how, err, client, before, after)
+			}
+			if op.Bool("retry") {
+				ctx, cancel := s.ctx()
+				sr, err = s.trySub(ctx, client, qstr, cs, capacity)
+				cancel()
+				if err != nil {
+					e.Fail("C19", "phantom-registration", "Subscribe(%s, %q) failed with %s; the retry by the same client with the same query returned %v (the client is not subscribed: no subscription object, no events)", client, qstr, how, err)
+					sr = nil
+				} else {
+					e.Count("probe.retry_after_failed_subscribe")
+				}
+			}
+		} else {
+			e.Count("probe.subscribe_queued_behind_blocked_loop")
+			if after != before+1 {
+				e.Fail("C19", "subscribe-count", "Subscribe(%s, %q) succeeded but NumClientSubscriptions(%s) went from %d to %d", client, qstr, client, before, after)
+			}
+		}
+		if sr != nil {
+			sr.speed = op.Int("speed")
+			if capacity == 0 && op.Bool("pump") {
+				s.startPump(sr)
+				e.Settle()
+			}
+		}
+		e.Count("op.subto")
 	case "psub":
 		base := condsFromOps([]simcore.Op{op.Sub("base")})
 		if len(base) != 1 || base[0].Key == "" || op.Int("m") <= 0 || op.Int("cap") <= 0 {
@@ -491,7 +594,7 @@ func (s *psim) Apply(op simcore.Op) bool {
 		e.Count("fault.illtyped_bundle")
 	case "unsub":
 		i := op.Int("s")
-		if i < 0 || i >= len(s.subs) || s.subs[i].sentinel || s.subs[i].canary {
+		if i < 0 || i >= len(s.subs) || s.subs[i].sentinel || s.subs[i].canary || s.subs[i].blocker {
 			return false
 		}
 		sr := s.subs[i]
@@ -552,7 +655,7 @@ func (s *psim) Apply(op simcore.Op) bool {
 		if len(burst) == 0 {
 			return false
 		}
-		s.publishBurst(burst)
+		s.publishBurst(burst, nil)
 		e.Add("op.pub", int64(len(burst)))
 	case "read":
 		i := op.Int("s")
@@ -635,6 +738,19 @@ func (s *psim) mkPub(it simcore.Op) *pubRec {
 	return p
 }
 
+// mkBlock: a publication that only the blocker subscription matches.
+func (s *psim) mkBlock() *pubRec {
+	s.nextID++
+	p := &pubRec{id: s.nextID, kind: "block"}
+	if s.bus {
+		p.events = map[string][]string{"tm.event": {"SimBlock"}}
+	} else {
+		p.events = map[string][]string{"sim.block": {strconv.Itoa(p.id)}}
+		p.raw = p.events
+	}
+	return p
+}
+
 func (s *psim) mkBarrier() *pubRec {
 	s.nextID++
 	p := &pubRec{id: s.nextID, kind: "barrier"}
@@ -701,8 +817,10 @@ func (s *psim) modelPub(p *pubRec) {
 }
 
 // publishBurst publishes the burst followed by a barrier from one publisher goroutine, then
-// drains unbuffered subscriptions until the sentinel has seen the barrier (server idle).
-func (s *psim) publishBurst(burst []*pubRec) {
+// drains unbuffered subscriptions until the sentinel has seen the barrier (server idle). mid, if
+// not nil, runs once after the publisher has gone as far as it can and before anything is drained
+// (the server loop is then blocked if the burst matches an unbuffered, un-pumped subscription).
+func (s *psim) publishBurst(burst []*pubRec, mid func()) {
 	bar := s.mkBarrier()
 	burst = append(burst, bar)
 	for _, p := range burst {
@@ -726,6 +844,11 @@ func (s *psim) publishBurst(burst []*pubRec) {
 	blockedOnce := false
 	for {
 		s.env.Settle()
+		if mid != nil {
+			mid()
+			mid = nil
+			s.env.Settle()
+		}
 		s.collectMailboxes()
 		if seen() {
 			break
@@ -1005,7 +1128,7 @@ func (s *psim) checkAll(final bool) {
 		// canonical observation (independent of map order in a correct server): part of the digest
 		var sb strings.Builder
 		for _, o := range s.subs {
-			if o.canary || o.sentinel {
+			if o.canary || o.sentinel || o.blocker {
 				continue
 			}
 			c := "-"
@@ -1039,7 +1162,7 @@ func (s *psim) Finish() {
 		s.checkAll(true)
 	}
 	for _, o := range s.subs {
-		if len(o.got) > 0 && !o.canary && !o.sentinel {
+		if len(o.got) > 0 && !o.canary && !o.sentinel && !o.blocker {
 			s.env.Count("probe.subscription_with_deliveries")
 		}
 		if o.mErr == "cap" {
